@@ -1,10 +1,10 @@
 package engine
 
 import (
-	"time"
 	"net/http"
 	"net/http/httptest"
 	"sync"
+	"time"
 
 	dto "github.com/prometheus/client_model/go"
 	"github.com/prometheus/common/expfmt"
